@@ -782,10 +782,42 @@ fn enumerate(case: &Case, b: &Built, mode: Mode, rep: &mut CaseReport, trace: &m
             *rep.counters.entry(format!("recovered:{phase}")).or_insert(0) += 1;
             continue;
         }
+        // "followed by all later events" includes the case that nothing follows: a repeated call
+        // that answers like the uninterrupted one must leave the uninterrupted run's state
+        let mut healed_only_by_later_events: Option<String> = None;
+        if retry.is_ok() {
+            // whatever else is listed for this call: a call that returned Ok leaves every active
+            // group's record mirroring its MLS state (no listed finding is about that)
+            let now = observe(&mdk).map_err(|e| Failure::new("group-does-not-load-after-crash", format!("{ctx}: after re-processing: {e}")))?;
+            for (g, f) in &now.groups {
+                if let Some(l) = &f.level {
+                    if l.record.state == "active" {
+                        if let Some(d) = crate::oracles::mirror_mismatch(l) {
+                            return Err(Failure::new(
+                                "record-does-not-mirror-mls-state-after-crash",
+                                format!("{ctx}: reopened with {phase}; the repeated call answered {retry_note}, and right after it group {}: {d}", &g[..8.min(g.len())]),
+                            ));
+                        }
+                    }
+                }
+            }
+        }
+        if retry.is_ok() && retry == twin_result {
+            let now = observe(&mdk).map_err(|e| Failure::new("group-does-not-load-after-crash", format!("{ctx}: after re-processing: {e}")))?;
+            if now != expected_after_target {
+                healed_only_by_later_events = Some(describe_diff(&now, &expected_after_target));
+            }
+        }
         for ev in &b.later {
             let _ = on_mdk!(&mdk, m => m.process_message(ev));
         }
         let fin = observe(&mdk).map_err(|e| Failure::new("group-does-not-load-after-crash", format!("{ctx}: after re-processing: {e}")))?;
+        if fin == expected_final && healed_only_by_later_events.is_some() && classify_finding(case.scenario, &b.target).is_none() {
+            return Err(Failure::new(
+                "crash-not-recoverable",
+                format!("{ctx}: reopened with {phase}; the repeated call answered {retry_note} like the uninterrupted one, yet right after it the client differs from the uninterrupted run: {} (only the later events of other members bring it back)", healed_only_by_later_events.unwrap_or_default()),
+            ));
+        }
         if fin == expected_final {
             *rep.counters.entry(format!("recovered:{phase}")).or_insert(0) += 1;
             if std::env::var("VCHECK_C12_DEBUG").is_ok() {
